@@ -1,6 +1,7 @@
 import MxModel.Props.C08
 import MxModel.Props.C01
 import MxModel.Proofs.ExecFlagsRun
+import MxModel.Props.C02
 /-!
 # C09 – the cached flag never changes any result
 
@@ -415,5 +416,69 @@ example : (evalTop (C02.run (qEnv, {}) qOps).1 (1, []) (C02.run (qEnv, {}) qOps)
       (C02.run (withFlags qEnv (fun x => x != 1), {}) qOps).2).1 = .ok (.int 4) ∧
     (C02.run (qEnv, {}) qOps).2.gn = [.obj 0, .elem (1, [])] ∧
     (C02.run (withFlags qEnv (fun x => x != 1), {}) qOps).2.gn = [] := by decide
+
+
+/-! ## The flag as part of a definition: structural histories
+
+In the combined machine (`Edit/Machine.lean`) the cache flag belongs to the definition a member entry
+carries (`Params.flagOf payload`; a derived cells takes the flag of its definer: `CellsImpl.on_inherit`
+copies `is_cached`), and `cells.is_cached = b` is `set_cells_property`: the cells AND its derived copies in
+the sub spaces are cleared as objects.  `C02.machine_keeps_ci` therefore covers flag edits in base
+spaces: invalidation still reaches every held value computed through a cells that was or becomes
+uncached, in the sub spaces too.  What does not lift: the two-run statement
+`results_flag_independent_after_history_partial` (it needs the two-run induction over structural
+histories). -/
+section combined
+
+/-- **uncached cells hold nothing** in every state of the combined machine with the invariant -/
+theorem uncached_members_hold_nothing (P : Edit.Params) (lt : Node → Node → Prop) (w : Edit.W)
+    (h : Edit.CIW P lt w) (c : CellId) (hc : (w.env P).cached c = false) (key : Key) :
+    lookup w.ex.data (c, key) = none := by
+  cases hl : lookup w.ex.data (c, key) with
+  | none => rfl
+  | some v =>
+    have := (h.ci.gi.heldNodes (c, key) (by rw [hl]; rfl)).2
+    rw [hc] at this; cases this
+
+/-- **a flag edit in a base keeps the invariant** (it is `set_cells_property`: instance of
+`C02.machine_keeps_ci`) – for the cells and for its derived copies in every sub space -/
+theorem flag_edit_in_base_keeps_invariant (P : Edit.Params) (lt : Node → Node → Prop) (ho : StrictOrder lt)
+    (w : Edit.W) (p : SM.Path) (name : String) (v : Nat) (hw : C02.WF (w.env P) lt) (h : Edit.CIW P lt w) :
+    Edit.CIW P lt (Edit.step P w (.struct (.setFormula p name v))) :=
+  C02.machine_keeps_ci P lt ho w _ hw h
+
+/-- the example of C02 with payload 2 standing for the UNCACHED definition `y * 3` -/
+def fP : Edit.Params := { Edit.eP with flagOf := fun v => v != 2 }
+
+def fOps : List Edit.Op := [
+  .struct (.newSpace [] "Base" [] []), .struct (.newCells ["Base"] "f" "f" 0), .struct (.setRef ["Base"] "y" 1),
+  .struct (.newSpace [] "Sub" [["Base"]] []), .eval ["Sub"] "f" [],
+  .struct (.setFormula ["Base"] "f" 2), .eval ["Sub"] "f" [],
+  .struct (.setFormula ["Base"] "f" 1), .eval ["Sub"] "f" []]
+
+/-! `Sub.f()` is 2 and held; `Base.f` becomes the uncached `y * 3`: the derived `Sub.f` is cleared and
+uncached too – `Sub.f()` is 3 and NOTHING is held; `Base.f` becomes cached again: `Sub.f()` is 3 and
+held.  The history is admissible and ends in a state with the invariant. -/
+example : (Edit.run fP {} (fOps.take 5)).ex.data = [((1, []), .int 2)] ∧
+    (Edit.run fP {} (fOps.take 6)).ex.data = [] ∧
+    Edit.answer fP (Edit.run fP {} (fOps.take 6)) ["Sub"] "f" [] = some (.ok (.int 3)) ∧
+    (Edit.run fP {} (fOps.take 7)).ex.data = [] ∧
+    (fP.flagOf 2 = false) ∧
+    (Edit.run fP {} fOps).ex.data = [((1, []), .int 3)] := by
+  decide
+
+theorem fOps_admissible : Edit.Admissible fP idLt {} fOps :=
+  Edit.admissible_of_sources fP idLt Edit.eP_noCatch Edit.eP_scoped Edit.eP_noCalls fOps {} Edit.allocOK_empty
+
+example : Edit.CIW fP idLt (Edit.run fP {} fOps) :=
+  (C02.machine_reachable_ci fP idLt idLt_strict fOps fOps_admissible).1
+
+example (key : Key) : lookup (Edit.run fP {} (fOps.take 7)).ex.data (1, key) = none :=
+  uncached_members_hold_nothing fP idLt _
+    (C02.machine_reachable_ci fP idLt idLt_strict (fOps.take 7)
+      (Edit.admissible_of_sources fP idLt Edit.eP_noCatch Edit.eP_scoped Edit.eP_noCalls _ {} Edit.allocOK_empty)).1
+    1 (by decide) key
+
+end combined
 
 end MxModel.C09
